@@ -77,6 +77,19 @@ Theorem C16_dial_cancelled_by_notice : forall w rt mh p f,
 Proof. exact dial_cancelled_by_notice. Qed.
 Print Assumptions C16_dial_cancelled_by_notice.
 
+(* a notification cancels only the connection it names: on a socket shared by several
+   connections (everything one listener has accepted) a monitor fires only for the connection
+   with the very same four addresses as the datagram that caused the notification *)
+Theorem C16_monitor_only_own_connection : forall fixed w rt mh hops p f nd s x p',
+  wf_world w = true ->
+  utf8_valid (p_fn p) = true -> utf8_valid (p_fs p) = true ->
+  utf8_valid (p_tn p) = true -> utf8_valid (p_ts p) = true ->
+  In (nd, s, x) (o_recv (send_gen fixed w rt mh hops p f)) ->
+  monitor_match p' (nd, s, x) = true ->
+  p_fn p' = p_fn p /\ p_fs p' = p_fs p /\ p_tn p' = p_tn p /\ p_ts p' = p_ts p.
+Proof. exact monitor_only_own_connection. Qed.
+Print Assumptions C16_monitor_only_own_connection.
+
 (* ... which is what happens when nothing listens there ... *)
 Theorem C16_dial_to_unbound_service_is_cancelled : forall w rt mh p f mid back d n,
   wf_world w = true ->
